@@ -46,7 +46,7 @@ def c02_1(cx):
 def c02_2(cx):
     """report_tracked_write(d): assert d != NEVER_CHANGE dominates the write; fills a range covering [1, d.index()] of self.revisions with current_revision()."""
     b = cx.fn(RT + r"report_tracked_write$")
-    fill = cx.one(b.calls(r"^core::slice::<impl \[T\]>::fill$"), "slice::fill call in report_tracked_write")
+    fill = cx.one_call(b, r"^core::slice::<impl \[T\]>::fill$", "slice::fill call in report_tracked_write")
     args = [b.origin_op(a) for a in fill.node()["args"]]
     cx.flow(b, args[0],
             accept=[r"^\$1\.revisions\[std::ops::RangeInclusive::<Idx>::new\(const:1, durability::Durability::index\(\$2\)\)\]$",
@@ -73,9 +73,9 @@ def c02_3(cx):
     cx.sites(stores, 2, "stores into the input value in set_field")
     for s in stores:
         cx.only_if(b, s, frozen, "store %s only after the not-frozen assert" % short(b.origin_place(s.node()["p"])))
-    setter = cx.one(b.calls(r"^std::ops::FnOnce::call_once$"), "setter call")
+    setter = cx.one_call(b, r"^std::ops::FnOnce::call_once$", "setter call")
     cx.only_if(b, setter, frozen, "setter runs only after the not-frozen assert")
-    rep = cx.one(b.calls(RT + r"report_tracked_write$"), "report_tracked_write call in set_field")
+    rep = cx.one_call(b, RT + r"report_tracked_write$", "report_tracked_write call in set_field")
     a = b.origin_op(rep.node()["args"][1])
     cx.flow(b, a, accept=[r"^input::IngredientImpl::<C>::data_raw\(.*\)\.durabilities\[\$4\]$"],
             refute=[r"unwrap_or", r"^\$5", r"^const:", r"Durability::"],
@@ -132,12 +132,12 @@ def c02_5(cx):
 def c02_7(cx):
     """Runtime::last_changed_revision(d) = revisions[d.index()] (out of range: Revision::start()); Zalsa::last_changed_revision forwards d; current_revision = revisions[0]."""
     b = cx.fn(RT + r"last_changed_revision$")
-    get = cx.one(b.calls(r"^core::slice::<impl \[T\]>::get$"), "revisions.get(..)")
+    get = cx.one_call(b, r"^core::slice::<impl \[T\]>::get$", "revisions.get(..)")
     a = [b.origin_op(x) for x in get.node()["args"]]
     cx.flow(b, a[0], [r"^\$1\.revisions$"], [], "indexes self.revisions", get)
     cx.flow(b, a[1], [r"^durability::Durability::index\(\$2\)$"], [r"^const:", r"Sub|Add"], "index is d.index()", get)
     z = cx.fn(r"^zalsa::Zalsa::last_changed_revision$")
-    c = cx.one(z.calls(RT + r"last_changed_revision$"), "forwarding call")
+    c = cx.one_call(z, RT + r"last_changed_revision$", "forwarding call")
     cx.flow(z, z.origin_op(c.node()["args"][1]), [r"^\$2$"], [r"^const:", r"Durability::"], "Zalsa::last_changed_revision forwards its durability", c)
     cr = cx.fn(RT + r"current_revision$")
     cx.flow(cr, cr.origin_local(0), [r"^\$1\.revisions\[const:0\]$"], [r"^\$1\.revisions\[const:[1-9]"], "current_revision() is revisions[0]")
@@ -154,8 +154,8 @@ def c02_7(cx):
 def c02_8(cx):
     """Database::synthetic_write: zalsa_mut -> new_revision happens before report_tracked_write(durability) (which holds the NEVER_CHANGE assert)."""
     b = cx.fn(r"^database::Database::synthetic_write$")
-    nr = cx.one(b.calls(r"^zalsa::Zalsa::new_revision$"), "new_revision call")
-    rp = cx.one(b.calls(RT + r"report_tracked_write$"), "report_tracked_write call")
+    nr = cx.one_call(b, r"^zalsa::Zalsa::new_revision$", "new_revision call")
+    rp = cx.one_call(b, RT + r"report_tracked_write$", "report_tracked_write call")
     cx.order(nr, rp, "new_revision precedes report_tracked_write")
     cx.flow(b, b.origin_op(rp.node()["args"][1]), [r"^\$2$"], [r"^const:", r"Durability::"], "synthetic_write reports its durability argument", rp)
     cx.must_call(b, RT + r"report_tracked_write$")
